@@ -48,6 +48,9 @@ def gen_script(rng, cid, cfg, length, long_texts=0.0):
     for a in pool:
         out.append(a)
         while svcs and rng.random() < 0.45:
+            if rng.random() < 0.12:
+                out.append({"a": "unlinked", "svc": rng.choice(svcs)})
+                continue
             kind_ = rng.choice(["OK", "OKacct", "AGAIN", "MORE", "junk", "OK", "NO"])
             out.append({"a": "reply", "svc": rng.choice(svcs), "text": _long_text(rng, kind_) if (kind_ in ("AGAIN", "MORE", "NO") and rng.random() < long_texts)
                         else gen.reply_text(rng, kind_)})
@@ -113,6 +116,12 @@ def to_event(s, cid, act, script):
         if not st or act["svc"] not in st["awaiting"]:
             return None
         return {"t": "reply", "svc": act["svc"], "tag": st["tag"], "text": act["text"]}
+    if a == "unlinked":
+        # the server could not deliver the query: the service is not linked (`x` notice)
+        st = s.open.get(cid)
+        if not st or act["svc"] not in st["awaiting"]:
+            return None
+        return {"t": "unlinked", "svc": act["svc"], "tag": st["tag"], "text": act.get("text", "Server not online")}
     if a == "stale":
         old = [t for (c, t, svs) in s.old_tags if c == cid]
         st = s.open.get(cid)
